@@ -8,6 +8,7 @@ import (
 
 	"verifharness/hx"
 	"verifharness/poolx"
+	"verifharness/ppx"
 )
 
 const wait = 4 * time.Second
@@ -234,4 +235,6 @@ func main() {
 		}}
 		runScen(w, id, fmt.Sprintf("random plans, %d workers x %d queries", workers, per), sc)
 	}
+	// the pool's walk and the retry loop over dummy connections that answer as scripted
+	ppx.Drive(w, o, func(s string) string { return "(KPool " + s + ")" })
 }
